@@ -384,11 +384,17 @@ def discharge_all(obligs, timeout_ms, workers=16, cover_timeout_ms=3000):
     for k, v in trivial.items():
         results.setdefault(k, []).extend(v)
     if jobs:
-        if workers > 1 and len(jobs) > 1:
-            with ProcessPoolExecutor(max_workers=min(workers, len(jobs))) as ex:
-                outs = list(ex.map(smt.discharge, [j for j, _ in jobs], chunksize=1))
+        # path re-execution emits the obligations of a shared prefix once per path, with identical text: solve each distinct job once
+        uniq = {}
+        for j, _ in jobs:
+            uniq.setdefault(j, len(uniq))
+        todo = list(uniq)
+        if workers > 1 and len(todo) > 1:
+            with ProcessPoolExecutor(max_workers=min(workers, len(todo))) as ex:
+                done = list(ex.map(smt.discharge, todo, chunksize=1))
         else:
-            outs = [smt.discharge(j) for j, _ in jobs]
+            done = [smt.discharge(j) for j in todo]
+        outs = [dict(done[uniq[j]]) for j, _ in jobs]
         for (j, ob), r in zip(jobs, outs):
             r["kind"], r["note"] = ob.kind, ob.note
             results.setdefault(ob.name, []).append(r)
